@@ -46,6 +46,13 @@ DOCUMENTED_INPLACE = {
 }
 
 
+# ... and, where "in place" is an option, the parameter value under which the caller's argument must be left alone
+INPLACE_OPTION = {
+    ("tensorly.cp_tensor.cp_mode_dot", "cp_tensor"): ("copy", True),
+    ("tensorly.tucker_tensor.tucker_mode_dot", "tucker_tensor"): ("copy", True),
+}
+
+
 class Alias(Domain):
     name = "points-to"
 
@@ -294,7 +301,22 @@ def run(ctx: Ctx):
             if not effs:
                 continue
             if (f.qname, p) in DOCUMENTED_INPLACE:
-                continue
+                # documented as in place -- but when that is an option, the safe value of the option must be safe
+                opt = INPLACE_OPTION.get((f.qname, p))
+                if opt is None:
+                    continue
+                from ..absint import Const
+
+                args2 = dict(symbolic_args(f))
+                args2[opt[0]] = Const(opt[1])
+                r2 = it.call_function(f, args2)
+                effs = [e for e in r2.effects if e[0][0] == "P" and e[0][1] == p and (e[2], e[4]) not in SUPPRESSED]
+                res.instance("MUTATES-ARG", f"{f.qname}({p}) with {opt[0]}={opt[1]}", nontrivial=True, sample={"entry": f.qname, "param": p, "option": f"{opt[0]}={opt[1]}", "mutations": [e[4][:70] for e in effs][:3]})
+                if not effs:
+                    continue
+                how_suffix = f" although {opt[0]}={opt[1]} was requested"
+            else:
+                how_suffix = ""
             seen_sites = set()
             for tok, how, fq, line, construct in sorted(effs, key=lambda e: (e[2], e[3])):
                 origin = repo.functions.get(fq)
@@ -308,8 +330,8 @@ def run(ctx: Ctx):
                     "MUTATES-ARG",
                     f,
                     None,
-                    f"public `{f.name}` can write into its caller-owned argument `{p}`: {how} `{construct[:90]}` at {origin.module.rel if origin else '?'}:{line} in `{fq.rsplit('.', 1)[-1]}`",
-                    construct=f"{p} <- {how}",
+                    f"public `{f.name}` can write into its caller-owned argument `{p}`{how_suffix}: {how} `{construct[:90]}` at {origin.module.rel if origin else '?'}:{line} in `{fq.rsplit('.', 1)[-1]}`",
+                    construct=f"{p} <- {how}" + (f" [{how_suffix.strip()}]" if how_suffix else ""),
                     mutating_function=fq,
                     line=line,
                     param=p,
